@@ -178,11 +178,17 @@ func scExec(p scProg, rnd *rand.Rand) (ev interface{}) {
 		case "zero":
 			vals[i] = ociauth.Scope{}
 		case "new":
-			rss := make([]ociauth.ResourceScope, len(d.Items)) // NewScope sorts its argument in place
+			// The harness owns the argument slice (with spare capacity) and, as any caller may,
+			// reuses it as soon as NewScope has returned: the scope must not live in it.
+			rss := make([]ociauth.ResourceScope, len(d.Items), len(d.Items)+4)
 			for j, t := range d.Items {
 				rss[j] = scRS(t)
 			}
 			vals[i] = ociauth.NewScope(rss...)
+			rss = rss[:cap(rss)]
+			for j := range rss {
+				rss[j] = ociauth.ResourceScope{ResourceType: "harness-reused-its-slice", Resource: fmt.Sprint(j), Action: "x"}
+			}
 		case "parse":
 			d.Text = scRender(d.Fields, d.Seps)
 			vals[i] = ociauth.ParseScope(d.Text)
